@@ -41,6 +41,7 @@ DESIGN_REF = "DESIGN.md section 5, C02; design/C02.md"
 THEOREMS = [
     "XalanModel.Props.C02.binLevel_leftAssoc_partial",
     "XalanModel.Props.C02.enc_leftNested",
+    "XalanModel.Props.C02.mulExpr_atoms_leftAssoc_partial",
     "XalanModel.Props.C02.unary_minus_counterexample",
     "XalanModel.Props.C02.accepts_nonexpr_counterexample",
     "XalanModel.Props.C02.compare_spec_partial",
@@ -400,6 +401,11 @@ def compare_stream(ctx, r, harness, model, work):
 # evaluation: location paths over all axes, predicates, unions, functions, arithmetic
 
 EVAL_CORPUS = [
+    "number('9223372036854775808') > 0", "9999999999999999999 > 0", "number('9999999999999999999')", "9223372036854775807 + 1",
+    "number('-9223372036854775809')", "18446744073709551616 div 2", "'9223372036854775808' > '9223372036854775807'",
+    "number(' 1234567890123456789.5 ')", "0.30000000000000004 = 0.1 + 0.2", "number('0000000000000000000000001')",
+    "sum(//*) > 0", "number('-0')", "1 div number('-0')", "number('1234567890')", "number('12345678901') * 2",
+    "9007199254740993 - 9007199254740992", "number('99999999999999999999.99999')", "number('.0000000001') * 10000000000",
     "//*[../*[position() > 0] and position() = 2]", "//*[position() = 2 and ../*[position() > 0]]",
     "//*[count(../*[position() > 0]) = position()]", "(//*)[(../*)[position() = last()] and position() = 2]",
     "//*[ancestor-or-self::*[position() >= 1] and position() = last()]",
@@ -410,7 +416,10 @@ EVAL_CORPUS = [
     "//*[2]/following::node()[position() < 3]", "count(//@*)", "sum(//a) div count(//a)", "-(0)", "5 mod -2", "-5 mod 2",
     "1 div 0", "-1 div 0", "0 div 0", "(0 div 0) != (0 div 0)", "1 div -(0)", "substring('12345', 1.5, 2.6)",
     "substring('12345', 0 div 0)", "substring('12345', -1 div 0, 1 div 0)", "//text()[. = 'x']/..", "//a[b][1]",
-    "//a[@p or @q][last()]", "string(//a[2])", "set:distinct(//*)", "set:leading(//*, //b)", "set:trailing(//*, //b)",
+    "//a[@p or @q][last()]", "string(//a[2])", "substring('12345', -1 div 0)", "substring('12345', 2, 1 div 0)",
+    "substring('12345', -1 div 0, 1 div 0)", "substring('12345', 0.5, 1.5)", "substring('12345', 1.5)", "substring('12345', 1.4999, 2.4999)",
+    "concat('a', 'b')", "concat('a', 'b', 'c', 'd', 'e')", "translate('aabb', 'aab', 'xyz')", "normalize-space('  ')",
+    "count(//*[lang('en')])", "lang('en')", "local-name(//@*[1])", "name(//@*[last()])", "set:distinct(//*)", "set:leading(//*, //b)", "set:trailing(//*, //b)",
     "set:leading(//a, //b)", "set:difference(//*, //a)", "set:intersection(//*, //a | //b)", "set:has-same-node(//a, //b)",
     "x:distinct(//text())", "count(x:nodeset(//a))", "set:leading(//*, //zz)", "set:trailing(//a, /*)", "substring-before('abcabc', 'bc')", "substring-after('abcabc', 'bc')",
     "substring-before('abc', '')", "substring-after('abc', '')", "substring-before('abc', 'x')", "substring-after('abc', 'abc')", "count(//@node()) - count(//@*)", "-1 div -(0)", "5 mod (1 div 0)", "-4 mod 2",
@@ -439,11 +448,12 @@ def classify_eval(text, iv, mv, sv):
         return ("eval.arith[mod]: %s" % text, "value %s, IEEE remainder (XPath 3.5) gives %s" % (iv, sv))
     if iv == mv and re.search(r"\bdiv\b", text) and not g.uses_multi_position_pred(text):
         return ("eval.arith[div]: %s" % text, "value %s, IEEE division gives %s" % (iv, sv))
-    if mv == sv and re.search(r"'|string\(|name\(|concat\(|substring\(|translate\(|normalize-space\(", text) and \
-            re.search(r"[<>=]|[-+*]|\bdiv\b|\bmod\b|number\(|floor\(|ceiling\(|round\(|\[", text):
-        return ("eval.recycled-xstring-number: %s" % text,
-                "value %s, the specification gives %s (an XString recycled by XObjectFactoryDefault::createString keeps the "
-                "number cached for its previous value)" % (iv, sv))
+    if mv == sv and "lang(" in text:
+        return ("eval.lang[not-nearest]: %s" % text,
+                "value %s, XPath 4.3 gives %s (FunctionLang keeps climbing past a non-matching nearest xml:lang)" % (iv, sv))
+    if mv == sv and re.search(r"substring\(", text) and re.search(r"-\s*\(?\s*1\s*\)?\s+div\s+\(?\s*0", text):
+        return ("eval.substring[negative-infinity-start]: %s" % text,
+                "value %s, XPath 4.2 gives %s (FunctionSubstring treats a start of -Infinity like NaN: empty string)" % (iv, sv))
     if iv == mv and g.uses_multi_position_pred(text):
         return ("eval.stale-position[multi-predicate]: %s" % text,
                 "value %s, XPath 2.4 gives %s (position() answered from the cache of the previous predicate)" % (iv, sv))
@@ -522,7 +532,8 @@ def eval_stream(ctx, r, harness, model, work):
             ctx.fail(key, bad[1] + " [doc %s, context node %d]" % (xml, c),
                      {"lines": eval_session_lines(xml, table, [(stext, c)]), "doc": xml, "context": c, "expr": stext})
         if iv_c != mv and not (bad and (bad[0].startswith("eval.rejects[root-before-union]") or bad[0].startswith("eval.attribute-node-test")
-                                        or bad[0].startswith("eval.recycled-xstring-number"))):
+                                        or bad[0].startswith("eval.substring[negative-infinity-start]")
+                                        or bad[0].startswith("eval.lang[not-nearest]"))):
             disagree.append({"doc": xml, "context": c, "expr": text, "impl": iv, "model": mv, "spec": sv})
     ctx.extra["eval_impl_errors"] = nerr
     ctx.oblige("correspondence: XPath::execute (type, value, node ids in delivered order) = Lean model evaluator on every "
